@@ -225,6 +225,64 @@ def check_offpolicy_lanes(ck, kind, E=2, n_steps=2, C=2):
             ck.prove(f"noninterference.{n}@{name}", [SE["st_step_state_buffer_position"][0] >= 0], eq_arr(a[0], b[0]), replay=lambda res, n=n: (True, {"note": f"lane 0 of {n} depends on lane 1's start state"}))
 
 
+def check_offpolicy_warmup_lanes(ck, kind, E=2, L=1, C=2):
+    """the warm-up inside reset(): every environment's buffer and state are those of an independent single-environment start + warm-up from that
+    environment's own keys (per-environment keys: any split children of the reset key, distinct per lane)"""
+    from lerax.algorithm.off_policy import AbstractOffPolicyStepState
+    name = f"offpolicy_warmup/{kind},E={E},L={L}"
+    env, pol = make(kind, False, True)
+    cb = empty_callback()
+    algoE = ProbeOff(buffer_size=C * E, learning_starts=L, num_envs=E, num_steps=1)
+    trE = trace(lambda env, pol, key: {"state": algoE.reset(env, pol, key=key, callback=cb).step_state}, env, pol, jr.key(0), argnames=["st_env", "st_policy", "key"], label=f"AbstractOffPolicyAlgorithm.reset (E={E}, learning_starts={L})")
+    ck.encoded(trE)
+    itE = Interp()
+    SE = trE.symbols(itE)
+    outE = trE.run(itE, SE)
+    algo1 = ProbeOff(buffer_size=C, learning_starts=L, num_envs=1, num_steps=1)
+
+    def single(env, pol, k_init, k_starts):
+        ss = AbstractOffPolicyStepState.initial(C, env, pol, cb, k_init)
+        return {"state": algo1.collect_learning_starts(env, pol, ss, cb, k_starts)}
+    tr1 = trace(single, env, pol, jr.key(0), jr.key(1), argnames=["st_env", "st_policy", "k_init", "k_starts"], label="single environment: StepState.initial + collect_learning_starts")
+    cands = candidate_lane_keys(itE)
+    root = SE["key"][()]
+    dflt = lambda j, lane: ksplit(E)(ksplit(3)(root, z3.IntVal(j)), z3.IntVal(lane))
+    chosen = []
+    for lane in range(E):
+        best = None
+        pairs = [(dflt(0, lane), dflt(1, lane))] + [(a, b) for a in cands for b in cands if not a.eq(b)]
+        for ki, ks in pairs[:40]:
+            it1 = Interp()
+            S1 = {n: (arr0(ki) if n == "k_init" else (arr0(ks) if n == "k_starts" else SE[n])) for n in tr1.in_names}
+            out1 = tr1.run(it1, S1)
+            goals = {}
+            for n in tr1.out_names:
+                a, b = outE[n], out1[n]
+                a = a[lane] if tuple(a.shape) != tuple(b.shape) else a
+                goals[n] = eq_arr(arr0(a) if not isinstance(a, np.ndarray) else a, b)
+            nsyn = sum(1 for g in goals.values() if g is True)
+            if best is None or nsyn > best[2]:
+                best = ((ki, ks), goals, nsyn)
+            if nsyn == len(goals):
+                break
+        (ki, ks), goals, _ = best
+        chosen.append((ki, ks))
+
+        def rp(res, n, lane=lane, ki=ki, ks=ks):
+            keys = concrete.KeyBinding(res)
+            w = concrete.ModelWorld(res, itE.uf_apps, keys)
+            valsE = [concrete.model_leaf(res, SE[m], av, keys) for m, av in zip(trE.in_names, trE.in_avals)]
+            realE = dict(zip(trE.out_names, concrete.run_real(trE, valsE, w)))
+            vals1 = [keys.concrete(ki) if m == "k_init" else (keys.concrete(ks) if m == "k_starts" else valsE[trE.in_names.index(m)]) for m in tr1.in_names]
+            real1 = dict(zip(tr1.out_names, concrete.run_real(tr1, vals1, w)))
+            x, y = concrete.real_to_float(realE[n]), concrete.real_to_float(real1[n])
+            x = x[lane] if x.shape != y.shape else x
+            return (not np.allclose(x, y, rtol=1e-3, atol=1e-3, equal_nan=True)), {"field": n, "lane": lane, "vectorised_reset": np.asarray(x).reshape(-1)[:8].tolist(), "independent_single_environment": np.asarray(y).reshape(-1)[:8].tolist()}
+        for n in tr1.out_names:
+            ck.prove(f"lanes.{n}@{name},lane={lane}", [], goals[n], replay=lambda res, n=n, rp=rp: rp(res, n))
+    ck.fact(f"lanes.per_env_keys_distinct@{name}", all(not chosen[i][j].eq(chosen[k][j]) for j in (0, 1) for i in range(E) for k in range(i + 1, E)), f"per-environment (init, warm-up) keys {chosen}")
+
+
 def check_pytree_roundtrip(ck):
     """`the same result whether called eagerly, under jit, or vmapped`: a space / wrapper that is an ARGUMENT of a transformed function is rebuilt inside it from
     its pytree leaves.  The rebuilt object must compute what the original computes (e.g. a Dict space must keep its key order: JAX sorts the keys of plain dicts
@@ -402,6 +460,8 @@ def main():
     for kind in (("discrete", "box") if ck.thorough else ("box",)):
         with ck.section(f"offpolicy.{kind}"):
             check_offpolicy_lanes(ck, kind)
+    with ck.section("offpolicy.warmup.box"):
+        check_offpolicy_warmup_lanes(ck, "box")
     # the rows handed to training from the stacked per-environment replay buffers: every leaf of a sampled row comes from one slot of ONE environment
     # (the obligations of C06's vectorised sampling section, E=2 with independent symbolic fill levels, discharged here as part of `never mix`)
     for C_, B_ in (((2, 1), (3, 2)) if not ck.thorough else ((2, 1), (2, 3), (3, 2), (4, 5))):
